@@ -1086,7 +1086,18 @@ class Envelope:
             t_a=delay, omega_a=(C0 / n) / other.wavelength
         )
         integrand = lambda x: np.conj(f1(x)) * f2(x)
-        result, _ = quad(integrand, -np.inf, np.inf)
+        # Integrate over the window in which both profiles are non-negligible.
+        # Over the whole real line the quadrature does not find pulses which
+        # are narrow compared to unity (e.g. the default 42 fs pulse).
+        lower, upper = -np.inf, np.inf
+        p1, p2 = self.temporal_profile.params, other.temporal_profile.params
+        if all(k in p for p in (p1, p2) for k in ("mu", "sigma")):
+            c1, c2 = p1["mu"], delay + p2["mu"]
+            lower = max(c1 - 12 * p1["sigma"], c2 - 12 * p2["sigma"])
+            upper = min(c1 + 12 * p1["sigma"], c2 + 12 * p2["sigma"])
+            if upper <= lower:
+                return 0.0
+        result, _ = quad(integrand, lower, upper)
 
         return result
 
